@@ -1,1 +1,12 @@
 import CGV.Props.C14
+#print axioms CGV.C14.C14_pos_kw_base
+#print axioms CGV.C14.C14_pos_kw_base_q
+#print axioms CGV.C14.C14_pos_kw_frag
+#print axioms CGV.C14.C14_kw_perm
+#print axioms CGV.C14.C14_kw_perm_error
+#print axioms CGV.C14.C14_defaults_base
+#print axioms CGV.C14.C14_defaults_frag
+#print axioms CGV.C14.C14_cast
+#print axioms CGV.C14.C14_numeric_spellings
+#print axioms CGV.C14.C14_atom_propagate
+#print axioms CGV.C14.C14_sort_keeps
